@@ -140,6 +140,20 @@ fn common_code(rng: &mut Rng) -> Code {
     Code::Adf(AdfSpec { names, acs, ac_order: vec![0, 1] })
 }
 
+/// One add in six sends its code as an uploaded file (`file` part of the multipart form)
+/// instead of the `code` text field: the handler's other input path.
+fn upload_some_as_file(rng: &mut Rng, clients: &mut [Vec<Rq>]) {
+    for script in clients.iter_mut() {
+        for rq in script.iter_mut() {
+            if let Rq::Add { parsing, .. } = rq {
+                if rng.chance(1, 6) {
+                    parsing.push_str("+file");
+                }
+            }
+        }
+    }
+}
+
 impl Service {
     fn gen_c17(&self, rng: &mut Rng, thorough: bool) -> SrvCase {
         let contended = self.name == "contended";
@@ -358,6 +372,7 @@ impl Service {
             restarts = false;
             cancels = false;
         }
+        upload_some_as_file(rng, &mut clients);
         SrvCase { clients, faults, jumps, small_names, restarts, stall, cancels, shared_pair }
     }
 
@@ -443,6 +458,9 @@ impl Service {
         }
         // drawn last
         let cancels = rng.chance(1, 6);
+        // drawn last: some codes are uploaded as a file part instead of the text field
+        let mut clients = clients;
+        upload_some_as_file(rng, &mut clients);
         SrvCase { clients, faults, jumps, small_names: false, restarts, stall, cancels, shared_pair: false }
     }
 }
@@ -961,6 +979,9 @@ impl<'a> Run<'a> {
                         }
                     }
                 }
+                if ok && parsing.ends_with("+file") {
+                    self.stats.inc("adds_with_uploaded_file_acknowledged");
+                }
                 if ok {
                     // learn the problem name from what the request inserted
                     let ins = self.inserted_by.get(tag).cloned().unwrap_or_default();
@@ -1447,6 +1468,7 @@ async fn run_world(svc_cfg: &Service, case: &SrvCase, dec: Decisions, seed_for_k
                 tokio::time::advance(std::time::Duration::from_millis(1)).await;
                 run.w.issue(c, tag, req);
                 crate::world::pump().await;
+                run.w.settle_request(c).await;
             }
             Act::Release(id) => {
                 if let Some(t) = run.w.tasks.get(&id) {
